@@ -181,6 +181,12 @@ func runComposite(c *core.Ctx, st pred.Style, base []pred.Row) {
 		}
 		c.Inc("composite_chains")
 		c.Inc("fin_" + fin)
+		if strings.HasPrefix(cc.finName(), "FindInBatches") {
+			c.Inc("fin_Find_spelt_FindInBatches")
+			if len(want) > cc.batchSize() {
+				c.Inc("fin_Find_spelt_FindInBatches_several_batches")
+			}
+		}
 		if err != nil {
 			problems = append(problems, "error: "+err.Error())
 		} else if fin == "FirstCPK" {
@@ -233,7 +239,10 @@ func load(rows []pred.Row) {
 var finNames = []string{"Find", "FindInline", "Count", "Update", "Delete", "FirstPK", "UpdatePK", "DeletePK", "Pluck", "FirstInline", "DeleteInline"}
 
 // spellings of one finisher that share its meaning (cc.variant picks one)
-var findVariants = []string{"Find", "Model.Scan", "Model.Rows"}
+var findVariants = []string{"Find", "Model.Scan", "Model.Rows", "FindInBatches"}
+
+// batch size of the FindInBatches spelling: 1..3, so that most chains are read in several batches
+func (cc chainCase) batchSize() int { return 1 + (cc.variant/len(findVariants))%3 }
 var updateVariants = []string{"Update", "Updates(map)", "UpdateColumn", "UpdateColumns(map)"}
 
 type chainCase struct {
@@ -248,7 +257,11 @@ type chainCase struct {
 func (cc chainCase) finName() string {
 	switch finNames[cc.fin] {
 	case "Find":
-		return findVariants[cc.variant%len(findVariants)]
+		if v := findVariants[cc.variant%len(findVariants)]; v == "FindInBatches" {
+			return fmt.Sprintf("FindInBatches(%d)", cc.batchSize())
+		} else {
+			return v
+		}
 	case "Update", "UpdatePK":
 		return finNames[cc.fin] + ":" + updateVariants[cc.variant%len(updateVariants)]
 	}
@@ -418,6 +431,9 @@ func observe(cc chainCase, table []pred.Row) (ids []int64, problems []string, mu
 		case cc.inline != nil:
 			q, args := cc.inline.Query(H.DB)
 			res = db.Find(&out, append([]interface{}{q}, args...)...)
+		case strings.HasPrefix(cc.finName(), "FindInBatches"):
+			got, ps, err := batchRead(db, false, len(table), cc.batchSize())
+			return pred.SortIDs(got), ps, false, "", err
 		case cc.finName() == "Model.Scan":
 			res = build(cc, root.Model(&pred.Row{})).Scan(&out)
 		case cc.finName() == "Model.Rows":
@@ -553,6 +569,9 @@ func run(c *core.Ctx) {
 	nchains := 7
 	for k := 0; k < nchains; k++ {
 		cc := genChain(r, st, len(table))
+		if len(table) > 0 && table[0].ID == 0 && strings.HasPrefix(cc.finName(), "FindInBatches") {
+			cc.variant = 0 // FindInBatches refuses a batch that ends in a zero key (ErrPrimaryKeyRequired): plain Find
+		}
 		desc := cc.desc()
 		c.Logf("CHAIN %s", desc)
 		exp := cc.expected()
@@ -594,7 +613,11 @@ func run(c *core.Ctx) {
 			for _, s := range cc.steps {
 				forms = append(forms, s.Op+":"+s.U.Form)
 			}
-			c.Violation(fin+"/"+strings.Join(forms, ","), map[string]interface{}{
+			sigFin := fin
+			if strings.HasPrefix(cc.finName(), "FindInBatches") {
+				sigFin = "FindInBatches"
+			}
+			c.Violation(sigFin+"/"+strings.Join(forms, ","), map[string]interface{}{
 				"chain": desc, "expected_predicate": exp.String(), "problems": problems, "table": rows, "sql": sqlText})
 			continue
 		}
@@ -630,9 +653,9 @@ var Engine = &core.Engine{
 	Rule: "seeded random tables (0..12 rows, NULLs, duplicates; in 1 of 4 the first row has the key 0) x chains of 1..4 Where/Not/Or calls (first call never Or) whose units are random condition trees (depth<=3) rendered as raw '?' string, @named string, map, struct, clause.Expression tree (Eq/Neq/Lt/Lte/Gt/Gte/Like/IN/And/Or/Not), grouped sub-builder or several of those handed to one call, with random keyword case / whitespace / redundant parentheses in 3 of 4 cases; " +
 		"further unit forms (units.go): raw strings whose AND / OR stand directly next to a placeholder, a string literal, a quoted identifier (\"b\", `b`, [b]), a block or line comment (a = ?OR\"b\" = ?, 'ab'OR, OR/**/b, OR--x<newline>b), values as placeholder or literal, '?' and @named; hand-built expressions (one or two values in a call): clause trees, clause.Expr, clause.NamedExpr (plain and tight text) alone or inside single-member clause.And / clause.Or wrappers (Or(e), Or(Or(e)), Or(And(e)), And(Or(e)), Not(Or(e)), Or(e, Or(f)), Or(Or(e), f)); grouped sub-builders whose own calls (Where/Not/Or/Clauses) carry these forms; a Where step whose values are all expressions is attached through db.Clauses(...) in half of the cases (same meaning as Where), also inside sub-builders and scope functions; " +
 		"a Where or inline unit behind another unit may be an empty map or a zero struct (adds no condition) " +
-		"x finishers Find (also spelt Model.Scan, Model.Rows), Find/First/Delete + inline condition, Pluck, Count, Update (also Updates(map), UpdateColumn, UpdateColumns(map)), Delete, First/Update/Delete with primary key in the model value, and Update/Updates/Delete/First with a (full or unmatched) two-part key in the model value on a composite-key twin table; " +
+		"x finishers Find (also spelt Model.Scan, Model.Rows, FindInBatches with batch size 1..3: every selected row delivered exactly once, RowsAffected = rows delivered, gorm's loop stopped by the callback after rows/size+3 batches), Find/First/Delete + inline condition, Pluck, Count, Update (also Updates(map), UpdateColumn, UpdateColumns(map)), Delete, First/Update/Delete with primary key in the model value, and Update/Updates/Delete/First with a (full or unmatched) two-part key in the model value on a composite-key twin table; " +
 		"per table also: 3 chains on a soft-delete twin (expectation: chain AND not marked); key placements (1 chain on the plain and the composite-key table, 2 on the soft-delete table; plain and soft-delete table in 1 of 3 with a row whose key is 0): the key in the finisher's value, in Model() with a keyless finisher value, in both, as a slice of 1..3 records (key IN ...) any of which may carry no key (no record with a key = no key unit), for Delete / Update / Updates(map | struct | &struct) / Updates(&record with key) / First / Take / Last, present and absent keys, every value as pointer, pointer to pointer, plain value, slice of pointers (&[]*T, pointer to that, []*T) - the key is one more AND unit of the last OR group; " +
-		"scope programs (3 per table): the chain's 2..5 condition calls spread over functions handed to Scopes, which hand further functions to Scopes (depth <= 3, empty and forwarding-only functions included), on the plain or soft-delete table, finishers Find / Pluck / Count then Pluck on one reusable handle / Update / Delete / First, Update, Delete with key / Model(key).Delete(keyless); one of the three is a grouped sub-builder carrying such scopes, db.Where(db.Scopes(...)), followed by 0..2 plain calls; scope siblings on a shared handle; numeric strings as key; " +
+		"scope programs (3 per table): the chain's 2..5 condition calls spread over functions handed to Scopes, which hand further functions to Scopes (depth <= 3, empty and forwarding-only functions included), on the plain or soft-delete table, finishers Find / FindInBatches (batch size 1..3, so that scopes registered by scopes and their Or units meet the batch cursor of the second and later batches) / Pluck / Count then Pluck on one reusable handle / Update / Delete / First, Update, Delete with key / Model(key).Delete(keyless); one of the three is a grouped sub-builder carrying such scopes, db.Where(db.Scopes(...)), followed by 0..2 plain calls; scope siblings on a shared handle; numeric strings as key; " +
 		"distinct = (op, form, tree shape, canonical-or-hostile rendering) per unit + finisher spelling (+ table, key placement and value forms, keyless records in the slice, zero-key row, scope depth); non-trivial = the reference selects neither no row nor every row",
 	Assumptions: []string{
 		"SQLite evaluates the emitted SQL correctly (it is the judge of what the SQL text means)",
@@ -648,6 +671,7 @@ var Engine = &core.Engine{
 		"a plain (non-pointer) value is not given to a read finisher, nor to Delete on the soft-delete table (gorm refuses it: ErrInvalidValue); slices of pointers hold no nil element (gorm panics on it in Update)",
 		"Delete: a model value given to Model() as a plain value (record or slice) is never combined with a finisher value that is a plain value too (Model(Row{ID: 3}).Delete(Row{})): gorm's Statement.Model defaults to the finisher value, and a by-value model of the same type cannot be told from that default without a new flag, so its key is not added; plain finisher values with pointer models and plain models with pointer finisher values are generated",
 		"a row with key 0 exists only on the single-column-key tables; a record naming it is a record without key",
+		"FindInBatches is not called on a table that holds a row with key 0 (gorm ends the loop with ErrPrimaryKeyRequired when a batch ends in a zero key; the statement does not fix that), plain Find is called instead; within a batch and between batches only membership and multiplicity of the delivered rows are judged, not their order",
 	},
 	Cases: func(tier string) int {
 		if tier == "thorough" {
